@@ -42,7 +42,8 @@ KINDS = {
                  mismatch="lmismatches", nontrivial="lcount_nontrivial"),
 }
 RULE = ("snap: generated target functions with 4-6 park sites (0-2 enclosing with blocks, 0-3 pending call operands, "
-        "Python-level or C-level park) + frame return; schedules = all placements of 1 move (quick) / 2 moves "
+        "Python-level or C-level park; plus running frames whose f_lasti is the first (UNPACK_SEQUENCE of `with .. as (x,)`) "
+        "or the last (BEFORE_WITH of an inner `with lock`) code unit of an exception-table range) + frame return; schedules = all placements of 1 move (quick) / 2 moves "
         "(thorough) over the switch points P1, P2, P3 i, P5 of attempts 0-1 x all target moves, then random "
         "schedules with up to 4 moves over attempts 0-3, plus 9- and 10-fold retry schedules; "
         "life: all valid event sequences (start, step, finish, other-start, other-finish) up to length 3 (quick) / 4 "
@@ -60,7 +61,7 @@ CONFIG = dict(
     trusted_base=["models M_Snapshot.v / M_ThreadLife.v are hand-written from _lowlevel_cpython_311.inspect_frame and "
                   "_glue.unwrap_thread",
                   "the target states given to the model are derived from the generated program with dis and "
-                  "dis._parse_exception_table (stdlib)",
+                  "dis._parse_exception_table (stdlib); code positions are passed as order-preserving ranks",
                   "harness/facts_c07.py (ast): adjacency of the f_lasti re-checks to the header and slot reads, all "
                   "InterpreterFrame reads inside the retry loop, handler re-raises only if f_lasti is unchanged"],
     assumptions=["CPython switches threads only at calls and backward jumps: the pair `assert frame.f_lasti == "
@@ -91,20 +92,39 @@ CONFIG = dict(
 
 RET = "ret"
 RETX = "retx"      # the frame returns AND its thread exits (its data-stack memory is unmapped)
-T_NULL, T_KEEP, T_OTHER = 1, 2, 999
+T_NULL, T_KEEP, T_LOCK, T_ITER, T_OTHER = 1, 2, 3, 4, 999
 
 
 # ======================================================================= snap: target programs
 def site_source(sites):
-    """Source of the target function; returns (source, {site: line of its park call}, line of return)."""
+    """Source of the target function; returns (source, {site: line of its park instruction}, line of return).
+    Site kinds: "py" (parks inside a Python-level call: stacktop saved), "c" (blocks inside a C-level call:
+    stacktop -1), and two kinds whose f_lasti sits exactly on a boundary of an exception-table range while the
+    frame is executing (stacktop -1):
+      "lock"    blocks in the BEFORE_WITH of `with ctl.lock:` (lock.__enter__ is C) -- the LAST code unit of the
+                enclosing with-body range;
+      "unpack"  blocks in the UNPACK_SEQUENCE of `with UCM(n) as (nxt,):` (__enter__ returns iter(cget, None),
+                whose __next__ is C) -- the FIRST code unit of that with's own range."""
     L = ["def target(ctl):", "    nxt = ctl.park(-1)", "    while True:"]
     lines = {}
     for s, st in enumerate(sites):
         L.append(f"        {'if' if s == 0 else 'elif'} nxt == {s}:")
-        ind = "            "
+        base = ind = "            "
         for j in range(st["w"]):
             L.append(f"{ind}with CM({s * 3 + j + 1}):")
             ind += "    "
+        if st["k"] in ("lock", "unpack"):
+            L.append(f"{ind}ctl.note({s})")
+            if st["k"] == "lock":
+                L.append(f"{ind}with ctl.lock:")
+                lines[s] = len(L)
+                L.append(f"{ind}    pass")
+                L.append(f"{base}nxt = cget()")
+            else:
+                L.append(f"{ind}with UCM({s * 3 + st['w'] + 1}) as (nxt,):")
+                lines[s] = len(L)
+                L.append(f"{ind}    pass")
+            continue
         call = "ctl.park(%d)" % s if st["k"] == "py" else "cget()"
         if st["k"] == "c":
             L.append(f"{ind}ctl.note({s})")
@@ -136,7 +156,23 @@ def build_program(sites):
     co = fn.__code__
     ins = list(dis.get_instructions(co))
     states = []
+    table = [(a, b - 2, d) for a, b, _t, d, _l in dis._parse_exception_table(co)]
     for s, st in enumerate(sites):
+        exits = [10 + s * 3 + j + 1 for j in range(st["w"])]
+        if st["k"] in ("lock", "unpack"):
+            op = "BEFORE_WITH" if st["k"] == "lock" else "UNPACK_SEQUENCE"
+            cand = [i.offset for i in ins if i.opname == op and i.positions.lineno == lines[s]]
+            lasti = cand[-1] if st["k"] == "lock" else cand[0]
+            if st["k"] == "lock":
+                slots = exits + [T_LOCK]
+                on_boundary = any(e == lasti for _a, e, _d in table)
+            else:
+                slots = exits + [10 + s * 3 + st["w"] + 1, T_ITER]
+                on_boundary = any(a == lasti for a, _e, _d in table)
+            if not on_boundary:
+                raise RuntimeError("site %d (%s) is not on a boundary of an exception-table range" % (s, st["k"]))
+            states.append({"lasti": lasti, "top": None, "slots": slots})
+            continue
         calls = [k for k, i in enumerate(ins) if i.opname == "CALL" and i.positions.lineno == lines[s]
                  and i.positions.end_lineno == lines[s]]
         # the park call is the first CALL that starts and ends on its own line
@@ -146,12 +182,11 @@ def build_program(sites):
             lasti = ins[k + 1].offset - 2
         else:
             lasti = ins[k].offset
-        slots = [10 + s * 3 + j + 1 for j in range(st["w"])]
+        slots = list(exits)
         if st["a"]:
             slots += [T_NULL, T_KEEP] + [100 + i + 1 for i in range(st["a"])]
         states.append({"lasti": lasti, "top": len(slots) if st["k"] == "py" else None, "slots": slots})
     rets = [i.offset for i in ins if i.opname in ("RETURN_CONST", "RETURN_VALUE") and i.positions.lineno == retline]
-    table = [(a, b - 2, d) for a, b, _t, d, _l in dis._parse_exception_table(co)]
     prog = dict(src=src, fn=fn, ns=ns, states=states, table=table, stacksize=co.co_stacksize, ret_lasti=rets[0])
     _PROG_CACHE[key] = prog
     return prog
@@ -169,6 +204,7 @@ class Ctl:
         self.frame = None
         self.returned = False
         self.thread = None
+        self.lock = None
 
     # --- called on the target thread
     def park(self, k):
@@ -194,6 +230,15 @@ class CM:
         return False
 
 
+class UCM(CM):
+    """__enter__ hands out a C-level iterator whose __next__ blocks in queue.get: unpacking it in
+    `with UCM(n) as (nxt,)` parks the frame inside UNPACK_SEQUENCE"""
+    cget = None
+
+    def __enter__(self):
+        return iter(self.cget, None)
+
+
 def keep(*a):
     return a
 
@@ -205,6 +250,10 @@ def token(x):
         return T_KEEP
     if isinstance(x, int) and not isinstance(x, bool) and 0 <= x < 50:
         return 100 + x
+    if type(x).__name__ == "lock":
+        return T_LOCK
+    if type(x).__name__ == "callable_iterator":
+        return T_ITER
     s = getattr(x, "__self__", None)
     if isinstance(s, CM) and getattr(x, "__name__", "") == "__exit__":
         return 10 + s.n
@@ -220,8 +269,10 @@ class SnapRun:
         self.prog = build_program(sites)
         self.ctl = Ctl()
         ns = self.prog["ns"]
-        ns["CM"], ns["keep"], ns["cget"] = CM, keep, self.ctl.cmd.get
+        ucm = type("UCM", (UCM,), {"cget": staticmethod(self.ctl.cmd.get)})
+        ns["CM"], ns["keep"], ns["cget"], ns["UCM"] = CM, keep, self.ctl.cmd.get, ucm
         self.cur = None
+        self.held = None
 
         def outer(ctl=self.ctl, fn=self.prog["fn"]):
             fn(ctl)
@@ -233,11 +284,32 @@ class SnapRun:
         self.ctl.parked.acquire()
         self.frame = self.ctl.frame
 
+    def _send(self, cmd):
+        """deliver a command to the target wherever it is parked"""
+        import threading
+        kind = self.sites[self.cur]["k"] if isinstance(self.cur, int) and self.cur >= 0 else "py"
+        if isinstance(cmd, int) and 0 <= cmd < len(self.sites) and self.sites[cmd]["k"] == "lock":
+            # the lock the target will block on at its next site: a fresh one, held by the controller
+            nl = threading.Lock()
+            nl.acquire()
+            nxt_lock = nl
+        else:
+            nxt_lock = None
+        old = self.held
+        if nxt_lock is not None:
+            self.ctl.lock = nxt_lock
+        self.held = nxt_lock
+        self.ctl.cmd.put(cmd)
+        if kind == "unpack":
+            self.ctl.cmd.put(None)        # sentinel: ends the one-element unpacking
+        elif kind == "lock":
+            old.release()
+
     def goto(self, mv):
         if self.ctl.returned:
             return
         if mv in (RET, RETX):
-            self.ctl.cmd.put(len(self.sites) + 7)
+            self._send(len(self.sites) + 7)
             self.ctl.parked.acquire()
             assert self.ctl.returned
             self.cur = RET
@@ -245,11 +317,11 @@ class SnapRun:
                 self.ctl.cmd.put(0)
                 self.thread.join(10)
             return
-        self.ctl.cmd.put(mv)
+        self._send(mv)
         self.ctl.parked.acquire()
         assert self.ctl.site == mv, (self.ctl.site, mv)
-        if self.sites[mv]["k"] == "c":
-            # `note` has announced the site; wait until the frame really sits in the blocking C call
+        if self.sites[mv]["k"] != "py":
+            # `note` has announced the site; wait until the frame really sits in the blocking C code
             want = self.prog["states"][mv]["lasti"]
             t0 = time.time()
             while self.frame.f_lasti != want:
@@ -416,25 +488,42 @@ def run_snap(desc):
     return obs
 
 
-def c_state(s):
-    return "(mkT %d %s %s)" % (s["lasti"], copt(None if s["top"] is None else str(s["top"])),
+def _encoder(prog):
+    """Code positions are handed to the model as ranks (2*rank+1) in the sorted set of all positions that occur in
+    the exception table, the park sites and the return; a position outside that set gets the even number between
+    its neighbours.  Strictly order-preserving, and the model only compares positions (<=, =), so nothing is lost;
+    it keeps the unary nat literals of the cases files small."""
+    import bisect
+    pos = sorted({x for a, b, _d in prog["table"] for x in (a, b)} | {st["lasti"] for st in prog["states"]}
+                 | {prog["ret_lasti"]})
+    index = {x: 2 * k + 1 for k, x in enumerate(pos)}
+
+    def enc(x):
+        return index[x] if x in index else 2 * bisect.bisect_left(pos, x)
+    return enc
+
+
+def c_state(s, enc):
+    return "(mkT %d %s %s)" % (enc(s["lasti"]), copt(None if s["top"] is None else str(s["top"])),
                                clist(str(t) for t in s["slots"]))
 
 
 def coq_snap(desc, obs):
     prog = build_program(desc["sites"])
+    enc = _encoder(prog)
     cfg = "(mkC %s %d SrcFacts.snapshot_retries %d SrcFacts.snapshot_header_check_adjacent SrcFacts.snapshot_slot_check_adjacent SrcFacts.snapshot_capture_to_check_no_call)" % (
-        clist("(%d, %d, %d)" % e for e in prog["table"]), prog["stacksize"], prog["ret_lasti"])
+        clist("(%d, %d, %d)" % (enc(a), enc(b), d) for a, b, d in prog["table"]), prog["stacksize"], enc(prog["ret_lasti"]))
     if desc["init"] == RET:
-        w = "(mkW (mkT %d (Some 0) []) InFrameObj)" % prog["ret_lasti"]
+        w = "(mkW (mkT %d (Some 0) []) InFrameObj)" % enc(prog["ret_lasti"])
     else:
-        w = "(mkW %s OnThread)" % c_state(prog["states"][desc["init"]])
+        w = "(mkW %s OnThread)" % c_state(prog["states"][desc["init"]], enc)
     ms = []
     for a, p, i, mv in desc["sched"]:
         pt = {"P1": "P1", "P1b": "P1b", "P2": "P2", "P5": "P5"}.get(p) or "(P3 %d)" % i
-        m = "Ret" if mv in (RET, RETX) else "(Goto %s)" % c_state(prog["states"][mv])
+        m = "Ret" if mv in (RET, RETX) else "(Goto %s)" % c_state(prog["states"][mv], enc)
         ms.append("(%d, %s, %s)" % (a, pt, m))
-    o = "(mkO %d %d %s %d)" % (obs["cls"], obs["lasti"] or 0, clist(str(t) for t in obs["stack"]), obs["retries"])
+    o = "(mkO %d %d %s %d)" % (obs["cls"], enc(obs["lasti"]) if obs["cls"] == 0 and obs["lasti"] is not None else 0,
+                               clist(str(t) for t in obs["stack"]), obs["retries"])
     return "(%s, %s, %s, %s)" % (cfg, w, clist(ms), o)
 
 
@@ -462,10 +551,18 @@ def oracle_snap(desc, obs):
         return "snapshot differs from the program-derived stack of that position"
     if site != RET and desc["sites"][site]["k"] == "py" and len(obs["stack"]) != len(full):
         return "snapshot of a frame suspended in a call is shorter than its saved stack"
+    if site != RET and desc["sites"][site]["k"] != "py":
+        st = desc["sites"][site]
+        want = st["w"] + (1 if st["k"] == "unpack" else 0)      # the managers entered so far
+        if len(obs["stack"]) != want:
+            return ("snapshot of an executing frame inside %d with-block(s) has %d slot(s): not trimmed at the depth of "
+                    "the enclosing handler" % (want, len(obs["stack"])))
     return None
 
 
 # ----------------------------------------------------------------------- snap: schedules
+BOUNDARY_PROGRAM = [{"w": 1, "a": 0, "k": "lock"}, {"w": 0, "a": 0, "k": "unpack"}, {"w": 2, "a": 0, "k": "lock"},
+                    {"w": 1, "a": 0, "k": "unpack"}, {"w": 1, "a": 2, "k": "py"}, {"w": 2, "a": 0, "k": "unpack"}]
 PROGRAMS = [
     [{"w": 0, "a": 0, "k": "py"}, {"w": 0, "a": 3, "k": "py"}, {"w": 1, "a": 1, "k": "py"},
      {"w": 2, "a": 0, "k": "c"}, {"w": 1, "a": 2, "k": "c"}],
@@ -485,7 +582,7 @@ def points_for(sites, attempts):
 def snap_inputs(tier, rng):
     def mk(sites, init, sched):
         return {"_kind": "snap", "sites": sites, "init": init, "sched": [list(x) for x in sched]}
-    for sites in PROGRAMS:
+    for sites in PROGRAMS + [BOUNDARY_PROGRAM]:
         moves = list(range(len(sites))) + [RET]
         inits = list(range(len(sites))) + [RET]
         # quiet target (blocked at every site)
@@ -501,11 +598,14 @@ def snap_inputs(tier, rng):
             for j in range(len(sites)):
                 if i != j:
                     yield mk(sites, i, [(0, "P1", 0, j), (0, "P2", 0, i)])
+                    if tier == "quick" and sites is BOUNDARY_PROGRAM:
+                        continue
                     yield mk(sites, i, [(0, "P1", 0, j), (0, "P5", 0, j), (1, "P1", 0, i), (1, "P2", 0, j)])
         # every single move at every switch point of attempts 0 and 1
         pts = points_for(sites, (0, 1))
+        light = tier == "quick" and sites is BOUNDARY_PROGRAM
         for i in inits[:-1]:
-            for (a, p, x) in pts:
+            for (a, p, x) in (points_for(sites, (0,)) if light else pts):
                 for m in moves:
                     if a == 0:
                         yield mk(sites, i, [(a, p, x, m)])
@@ -525,7 +625,7 @@ def snap_inputs(tier, rng):
         pts0 = points_for(sites, (0,))
         pairs = [(p, q) for p in pts for q in pts if p < q]
         if tier == "quick":
-            pairs = rng.sample(pairs, 60)
+            pairs = rng.sample(pairs, 60 if sites is not BOUNDARY_PROGRAM else 25)
         for (p, q) in pairs:
             combos = [(m1, m2) for m1 in moves for m2 in moves]
             if tier == "quick":
@@ -537,8 +637,13 @@ def snap_inputs(tier, rng):
     nprog = 6 if tier == "quick" else 40
     nsch = 40 if tier == "quick" else 150
     for _ in range(nprog):
-        sites = [{"w": rng.randrange(0, 3), "a": rng.randrange(0, 4), "k": rng.choice(["py", "py", "c"])}
+        sites = [{"w": rng.randrange(0, 3), "a": rng.randrange(0, 4), "k": rng.choice(["py", "py", "py", "c", "c", "lock", "unpack"])}
                  for _ in range(rng.randrange(3, 7))]
+        for st in sites:
+            if st["k"] in ("lock", "unpack"):
+                st["a"] = 0
+                if st["k"] == "lock":
+                    st["w"] = max(1, st["w"])
         moves = list(range(len(sites))) + [RET]
         pts = points_for(sites, (0, 1, 2, 3))
         for i in list(range(len(sites))) + [RET]:
